@@ -531,9 +531,15 @@ def c07(rec, st):
         cands, _ = find_eval_of_x(evals, res["x"])
         cands = [e for e in cands if e.fun is not None and beq(float(e.fun), float(res["fun"]))] or cands
         if cands:
-            V, scale, has_nan = V_of(rec, cands[-1])
-            Vnan = bool(has_nan)
-            if not has_nan:
+            # the same point may have been evaluated several times with different replies (sticky faults):
+            # the result refers to the evaluation whose values it reports
+            tv = [V_of(rec, e) for e in cands]
+            defined = [t for t in tv if not t[2]]
+            Vnan = not defined
+            if defined:
+                mc = float(res["maxcv"])
+                best = min(defined, key=lambda t: abs(t[0] - mc) if mc == mc else t[0])
+                V, scale = best[0], best[1]
                 Vres = V
                 amb = ambiguous_feasibility(stmt, V, scale, tol)
     if status == 0:
